@@ -1055,6 +1055,18 @@ func driveKernel(r *rand.Rand, w *bufio.Writer, id int, cv *coverOut) {
 		e.run(Call{Op: q, X: 1, Y: 2})
 		e.run(Call{Op: q, X: 2, Y: 1})
 	}
+	// scalar sweep over the operands and the last results: Select at the indexes that follow the ends of maximal intervals
+	// (word-aligned ones always), their predecessors, cell boundaries, random indexes - every one judged exactly
+	for _, x := range []int{1, 2, 3, 4} {
+		if e.mode64 && e.slots64[x] == nil || !e.mode64 && e.slots[x] == nil {
+			continue
+		}
+		cands := selectCands(e, x, r)
+		for j := 0; j < 6; j++ {
+			k := pick(r, cands)
+			e.run(Call{Op: "Select", X: x, Num: &k})
+		}
+	}
 	e.run(Call{Op: "Or", X: 1, Y: 1})
 	e.run(Call{Op: "Xor", X: 2, Y: 2})
 	cv.Traces++
